@@ -150,7 +150,7 @@ def parseOp (line : String) : Op :=
 
 /-- `hist <fielddesc> <U:var:gens> <B:order:vx:vy:gens> <snap 0|1> | op | op …` -/
 def runHist {α : Type} (desc : FieldDesc) (F : FOps α) (uSpec bSpec : String) (snap : Bool)
-    (ops : List String) : String :=
+    (ops : List String) (more : List (FOps α) := []) : String :=
   -- univariate rings
   let uParts := uSpec.splitOn ":"
   let uVar := unhex (uParts.getD 1 "58")
@@ -179,7 +179,8 @@ def runHist {α : Type} (desc : FieldDesc) (F : FOps α) (uSpec bSpec : String) 
   match uMod, bIdeal with
   | some um, some bi =>
     let env : Env α := {
-      fld := fun _ => F,
+      -- field objects 1, 2, … : further descriptors of the header if given, else twins of field 0
+      fld := fun i => if i == 0 then F else more.getD (i - 1) F,
       uring := fun i => if i == 1 then { uBase with modulus := um } else uBase,
       bring := fun i => if i == 1 then { bBase with ideal := bi } else bBase }
     let (_, outs) := ops.foldl (fun (st, outs) line =>
@@ -193,8 +194,13 @@ def runHistLine (toks : List String) (rest : String) : String :=
   match toks with
   | [fd, uSpec, bSpec, snapS] =>
     let ops := (rest.splitOn "|").map (·.trimAscii.toString) |>.filter (· != "")
-    match parseFieldDesc fd with
-    | some (.prime p) => runHist (.prime p) (primeOps p) uSpec bSpec (snapS == "1") ops
+    -- `P:7,P:11`: several prime fields (field objects 0, 1, …) of different characteristic
+    let fds := fd.splitOn ","
+    let extraPrimes := (fds.drop 1).filterMap fun d => match parseFieldDesc d with
+      | some (.prime q) => some (primeOps q)
+      | _ => none
+    match parseFieldDesc (fds.headD "") with
+    | some (.prime p) => runHist (.prime p) (primeOps p) uSpec bSpec (snapS == "1") ops extraPrimes
     | some (.bin n m) =>
       -- optional fourth component: the variable name given to binfield.SetVarName (hex)
       let var := match fd.splitOn ":" with
